@@ -26,54 +26,79 @@ def unit(job, variant, pi, seed, length):
            "sample": None, "max_queue": 0}
     try:
         done_cmds = []
+        # events_after[i] = events of the last play at or before log i of the CURRENT history (what must be relayed
+        # around the next action when the history ends at log i)
+        events_after = [[]]
+        checked = 0
+
+        def check_new_plays(expected_prev):
+            nonlocal checked
+            prev_events = expected_prev
+            for i in range(checked, len(pe.plays)):
+                pl = pe.plays[i]
+                out["plays"] += 1
+                out["events"] += len(pl["events"])
+                want = [emitted_of(e) for e in reversed(prev_events)] + [pl["action"]] + [done_of(e) for e in prev_events]
+                got = pl["queue"]
+                out["max_queue"] = max(out["max_queue"], len(got))
+                fail = None
+                if got != want:
+                    em = [a for a in got if ".emitted." in a["method"]]
+                    dn = [a for a in got if ".done." in a["method"]]
+                    for e in prev_events:
+                        if em.count(emitted_of(e)) != prev_events.count(e):
+                            fail = f"event offered {em.count(emitted_of(e))} times as emitted (expected {prev_events.count(e)})"
+                            break
+                        if dn.count(done_of(e)) != prev_events.count(e):
+                            fail = f"event offered {dn.count(done_of(e))} times as done (expected {prev_events.count(e)})"
+                            break
+                    if fail is None:
+                        extra = [a for a in got if a not in want]
+                        fail = ("an action not derived from the previous play's events was dispatched: " + str(extra[:2])) if extra \
+                            else "the relay order differs (emitted must precede and done must follow the action)"
+                if fail is not None:
+                    out["failing"].append({"kind": "relay", "job": job, "variant": variant, "play_index": i,
+                                           "action": pl["action"], "what": fail, "ops": list(done_cmds),
+                                           "previous_events": prev_events[:6], "dispatched": got[:12]})
+                    checked = len(pe.plays)
+                    return None
+                out["listened"] += sum(1 for d, _a in pl["all"] if d > 1)
+                if len(out["reqs"]) < 40 and (prev_events or i % 7 == 0):
+                    out["reqs"].append({"fn": "queue", "events": [simlib.enc_event(e) for e in prev_events],
+                                        "action": simlib.enc_action(pl["action"])})
+                    out["expect"].append({"job": job, "queue": [simlib.enc_action(a) for a in got]})
+                prev_events = pl["events"]
+            checked = len(pe.plays)
+            return prev_events
+
+        last_rollback = None
         for c in cmds:
-            if rng.random() < 0.2:
+            r = rng.random()
+            if r < 0.12:
                 # checkpoint / restore between two actions: resume from the recorded logs (through JSON half the time)
                 logs = list(pe.engine.operation_logs())
                 if rng.random() < 0.5:
                     logs = [OperationLog.model_validate_json(l.model_dump_json()) for l in logs]
                 pe.engine.reload(logs)
                 out["restores"] += 1
+                done_cmds.append("<reload>")
+            elif r < 0.24 and len(events_after) > 1:
+                # restore by rollback: to a random earlier log, or once more to the log of the previous rollback
+                k = last_rollback if (last_rollback is not None and last_rollback < len(events_after) and rng.random() < 0.5) \
+                    else rng.randint(0, len(events_after) - 1)
+                pe.engine.rollback(k)
+                last_rollback = k
+                events_after = events_after[: k + 1]
+                out["restores"] += 1
+                done_cmds.append(f"<rollback {k}>")
+            n_before = len(pe.plays)
             pe.engine.exec(c)
-            done_cmds.append(c)
-        prev_events = []
-        seen_before = []      # (emitted, done) action pairs already offered once
-        for i, pl in enumerate(pe.plays):
-            out["plays"] += 1
-            out["events"] += len(pl["events"])
-            want = [emitted_of(e) for e in reversed(prev_events)] + [pl["action"]] + [done_of(e) for e in prev_events]
-            got = pl["queue"]
-            out["max_queue"] = max(out["max_queue"], len(got))
-            fail = None
-            if got != want:
-                # say which part of the property fails
-                em = [a for a in got if ".emitted." in a["method"]]
-                dn = [a for a in got if ".done." in a["method"]]
-                for e in prev_events:
-                    if em.count(emitted_of(e)) != prev_events.count(e):
-                        fail = f"event offered {em.count(emitted_of(e))} times as emitted (expected {prev_events.count(e)})"
-                        break
-                    if dn.count(done_of(e)) != prev_events.count(e):
-                        fail = f"event offered {dn.count(done_of(e))} times as done (expected {prev_events.count(e)})"
-                        break
-                if fail is None:
-                    extra = [a for a in got if a not in want]
-                    fail = ("an action not derived from the previous play's events was dispatched: " + str(extra[:2])) if extra \
-                        else "the relay order differs (emitted must precede and done must follow the action)"
-            if fail is not None:
-                out["failing"].append({"kind": "relay", "job": job, "variant": variant, "play_index": i,
-                                       "action": pl["action"], "what": fail,
-                                       "plan": [command_text(c) for c in done_cmds],
-                                       "previous_events": prev_events[:6], "dispatched": got[:12]})
+            done_cmds.append(command_text(c))
+            after = check_new_plays(events_after[-1])
+            if after is None:
                 break
-            # listeners: nested router calls come from addons of components that handled a queued action
-            out["listened"] += sum(1 for d, _a in pl["all"] if d > 1)
-            if len(out["reqs"]) < 40 and (prev_events or i % 7 == 0):
-                out["reqs"].append({"fn": "queue", "events": [simlib.enc_event(e) for e in prev_events],
-                                    "action": simlib.enc_action(pl["action"])})
-                out["expect"].append({"job": job, "queue": [simlib.enc_action(a) for a in got]})
-            prev_events = pl["events"]
-        out["sample"] = {"job": job, "plan": [command_text(c) for c in cmds][:10],
+            events_after.append(after if len(pe.plays) > n_before else events_after[-1])
+        out["sample"] = {"job": job, "plan": done_cmds[:12],
                          "a_queue": [a["name"] + "." + a["method"] for a in pe.plays[min(3, len(pe.plays) - 1)]["queue"]][:9]}
     finally:
         pe.close()
